@@ -110,14 +110,10 @@ type Explorer struct {
 	Capped      bool
 	MaxDepth    int64
 
-	mu     sync.Mutex
-	cond   *sync.Cond
-	queue  [][]int32
-	idle   int
-	qlen   int64
-	done   bool
-	capped atomic.Bool
-	panicV atomic.Value
+	tasks   chan []int32
+	pending int64
+	capped  atomic.Bool
+	panicV  atomic.Value
 }
 
 // Replay runs the body once on exactly this vector (no search) and returns the context.
@@ -139,8 +135,9 @@ func (e *Explorer) Run() {
 	if e.Workers <= 0 {
 		e.Workers = 1
 	}
-	e.cond = sync.NewCond(&e.mu)
-	e.queue = [][]int32{nil}
+	e.tasks = make(chan []int32, 8192)
+	e.pending = 1
+	e.tasks <- nil
 	var wg sync.WaitGroup
 	for w := 0; w < e.Workers; w++ {
 		wg.Add(1)
@@ -149,45 +146,27 @@ func (e *Explorer) Run() {
 			defer func() {
 				if r := recover(); r != nil {
 					e.panicV.Store(fmt.Sprint(r))
-					e.mu.Lock()
-					e.done = true
-					e.cond.Broadcast()
-					e.mu.Unlock()
+					e.capped.Store(true)
+					// drain so that the other workers terminate
+					for range e.tasks {
+						if atomic.AddInt64(&e.pending, -1) == 0 {
+							close(e.tasks)
+						}
+					}
 				}
 			}()
-			e.worker()
+			for p := range e.tasks {
+				e.explore(p)
+				if atomic.AddInt64(&e.pending, -1) == 0 {
+					close(e.tasks)
+				}
+			}
 		}()
 	}
 	wg.Wait()
 	e.Capped = e.capped.Load()
 	if v := e.panicV.Load(); v != nil {
 		panic(fmt.Sprintf("xplore: explorer failed: %v", v))
-	}
-}
-
-func (e *Explorer) worker() {
-	for {
-		e.mu.Lock()
-		for len(e.queue) == 0 && !e.done {
-			e.idle++
-			if e.idle == e.Workers {
-				e.done = true
-				e.cond.Broadcast()
-				e.mu.Unlock()
-				return
-			}
-			e.cond.Wait()
-			e.idle--
-		}
-		if e.done && len(e.queue) == 0 {
-			e.mu.Unlock()
-			return
-		}
-		p := e.queue[len(e.queue)-1]
-		e.queue = e.queue[:len(e.queue)-1]
-		atomic.StoreInt64(&e.qlen, int64(len(e.queue)))
-		e.mu.Unlock()
-		e.explore(p)
 	}
 }
 
@@ -251,13 +230,14 @@ func (e *Explorer) explore(prefix []int32) {
 }
 
 func (e *Explorer) dispatch(child []int32) {
-	if e.Workers > 1 && atomic.LoadInt64(&e.qlen) < int64(4*e.Workers) {
-		e.mu.Lock()
-		e.queue = append(e.queue, child)
-		atomic.StoreInt64(&e.qlen, int64(len(e.queue)))
-		e.cond.Signal()
-		e.mu.Unlock()
-		return
+	if e.Workers > 1 && len(e.tasks) < cap(e.tasks)/2 {
+		atomic.AddInt64(&e.pending, 1)
+		select {
+		case e.tasks <- child:
+			return
+		default:
+			atomic.AddInt64(&e.pending, -1)
+		}
 	}
 	e.explore(child)
 }
